@@ -715,8 +715,33 @@ def struct_pack(I, fmt, vals):
     return Seq('bytes', None, items=out)
 
 
+def struct_unpack_rep(I, fmt, data):
+    """struct.unpack('>' + 'H' * n, data) with symbolic n: a tuple of n big-endian values (as a sequence)"""
+    it = _interp()
+    order = fmt.prefix if fmt.prefix in ('>', '<', '!', '=', '@', '') else None
+    if order is None or fmt.ch not in ('H', 'B'):
+        raise Unsupported('dynamic struct format %r%r*n' % (fmt.prefix, fmt.ch))
+    w = STRUCT_SIZES[fmt.ch]
+    s = to_seq(data)
+    n = zint(fmt.n)
+    nn = z3.If(n < 0, z3.IntVal(0), n)
+    ln = zint(s.n) if not isinstance(s.n, int) else z3.IntVal(s.n)
+    if not I.st.decide(ln == nn * w):
+        raise Raised('struct.error')
+    big = order in ('>', '!')
+    def at(k, s=s):
+        kz = zint(k)
+        if w == 1:
+            return s.at(mk(kz))
+        a, b = zint(s.at(mk(kz * 2))), zint(s.at(mk(kz * 2 + 1)))
+        return mk(a * 256 + b) if big else mk(b * 256 + a)
+    return Seq('list', z3.simplify(nn), at=at)
+
+
 def struct_unpack(I, fmt, data):
     USED.add('struct.unpack')
+    if isinstance(fmt, _interp().RepStr):
+        return struct_unpack_rep(I, fmt, data)
     order, items = parse_fmt(fmt)
     need = sum(c if ch == 's' else STRUCT_SIZES[ch] for c, ch in items)
     if isinstance(data, Opaque):
@@ -1018,6 +1043,19 @@ def native_method(I, recv, name, args, kw):
                 return mk(z3.If(z3.And(cz >= 97, cz <= 122), cz - 32, cz)) if up else mk(z3.If(z3.And(cz >= 65, cz <= 90), cz + 32, cz))
             if s.items is not None: return Seq('bytes', None, items=[conv(c) for c in s.items])
             return Seq('bytes', s.n, at=lambda k, s=s: conv(s.at(k)))
+        if name == 'join' and isinstance(args[0], _interp().ChunkList):
+            cl = args[0]
+            if s.items is None or s.items:
+                raise Unsupported('join of symbolic chunks with a non-empty separator')
+            m = cl.m
+            def at(k, cl=cl, m=m):
+                kz = zint(k)
+                ch = cl.fn(mk(kz / m))
+                r = zint(ch[-1])
+                for j in range(m - 2, -1, -1):
+                    r = z3.If(kz % m == j, zint(ch[j]), r)
+                return mk(r)
+            return Seq('bytes', zint(cl.n) * m if m != 1 else zint(cl.n), at=at)
         if name == 'join':
             items = I.iterate(args[0])
             acc = Seq('bytes', None, items=[])
@@ -1151,6 +1189,11 @@ def _partial(I, args, kw):
 def _rlock(I, args, kw):
     return Opaque('lock', kind='RLock')
 EXT['threading.Lock'] = lambda I, a, k: Opaque('lock', kind='Lock')
+
+
+@ext('collections.OrderedDict')
+def _ordereddict(I, args, kw):
+    return BUILTINS['dict'].fn(I, args, kw)       # A7: dict keeps insertion order
 
 
 @ext('six.next')
